@@ -131,45 +131,48 @@ def body_E1(ctx):
         args_p = (obj,) + args
     else:
         args_p = args
-    exp = outcome(lambda: plain(*args_p, **kwargs))
-    before = current_action()
-    n0 = len(received)
-    try:
-        got = outcome(lambda: deco(*args_p, **kwargs))
-    except Exception as e:
-        ctx.fail("decorated call raised %r where the plain function gives %r: %s" % (e, exp[0], desc), sig=_sig(names, template, sname, kwargs))
-    ctx.check(current_action() is before, "log_call changed the current action: %s", desc)
-    same = got[0] == exp[0] and (got[1] is exp[1] if got[0] == "raised" else got[1] == exp[1])
-    ctx.check(same, "decorated call gave %r, the plain function %r: %s", got, exp, desc, sig=_sig(names, template, sname, kwargs))
-    # metadata
-    ctx.check(deco.__name__ == plain.__name__ and deco.__doc__ == plain.__doc__, "name/docstring not preserved: %s", desc)
-    ctx.check(str(inspect.signature(deco)) == str(inspect.signature(plain)), "signature %s became %s", inspect.signature(plain), inspect.signature(deco))
-    window = received[n0:]
-    if exp[0] == "TypeError":
-        ctx.check(len(window) in (0, 2), "invalid call logged %d messages", len(window))
-    else:
-        ctx.check(len(window) == 2, "valid call logged %d messages instead of one action: %s", len(window), desc)
-        st, en = window
-        ctx.check(st.get("action_status") == "started" and en.get("action_status") == ("failed" if raises else "succeeded"), "statuses %r/%r: %s", st.get("action_status"), en.get("action_status"), desc)
-        exp_type = "custom:type" if option == 1 else "%s.%s" % (plain.__module__, plain.__qualname__)
-        if not (set(names) & {"action_type"}):
-            ctx.check(st["action_type"] == exp_type, "action type %r, expected %r", st["action_type"], exp_type)
-        bound = inspect.signature(plain).bind(*args_p, **kwargs)
-        bound.apply_defaults()
-        expected = dict(bound.arguments)
-        expected.pop("self", None)
-        if option == 2:
-            expected = {k: v for k, v in expected.items() if k == names[0]}
-        elif option == 4:
-            expected = {}
-        logged = {k: v for k, v in st.items() if k not in RESERVED}
-        expected = {k: v for k, v in expected.items() if k not in RESERVED}
-        ctx.check(logged == expected, "start message holds %r, Python binds %r: %s", logged, expected, desc, sig=_sig(names, template, sname, kwargs))
-        if not raises:
-            if option == 3:
-                ctx.check("result" not in en, "result logged despite include_result=False")
-            else:
-                ctx.check(en.get("result") == exp[1], "logged result %r, returned %r", en.get("result"), exp[1])
+    desc0 = desc
+    for attempt in ("first", "second"):  # the wrapper is built once and called many times
+        desc = desc0 + " (%s call)" % attempt
+        exp = outcome(lambda: plain(*args_p, **kwargs))
+        before = current_action()
+        n0 = len(received)
+        try:
+            got = outcome(lambda: deco(*args_p, **kwargs))
+        except Exception as e:
+            ctx.fail("decorated call raised %r where the plain function gives %r: %s" % (e, exp[0], desc), sig=_sig(names, template, sname, kwargs))
+        ctx.check(current_action() is before, "log_call changed the current action: %s", desc)
+        same = got[0] == exp[0] and (got[1] is exp[1] if got[0] == "raised" else got[1] == exp[1])
+        ctx.check(same, "decorated call gave %r, the plain function %r: %s", got, exp, desc, sig=_sig(names, template, sname, kwargs))
+        # metadata
+        ctx.check(deco.__name__ == plain.__name__ and deco.__doc__ == plain.__doc__, "name/docstring not preserved: %s", desc)
+        ctx.check(str(inspect.signature(deco)) == str(inspect.signature(plain)), "signature %s became %s", inspect.signature(plain), inspect.signature(deco))
+        window = received[n0:]
+        if exp[0] == "TypeError":
+            ctx.check(len(window) in (0, 2), "invalid call logged %d messages", len(window))
+        else:
+            ctx.check(len(window) == 2, "valid call logged %d messages instead of one action: %s", len(window), desc)
+            st, en = window
+            ctx.check(st.get("action_status") == "started" and en.get("action_status") == ("failed" if raises else "succeeded"), "statuses %r/%r: %s", st.get("action_status"), en.get("action_status"), desc)
+            exp_type = "custom:type" if option == 1 else "%s.%s" % (plain.__module__, plain.__qualname__)
+            if not (set(names) & {"action_type"}):
+                ctx.check(st["action_type"] == exp_type, "action type %r, expected %r", st["action_type"], exp_type)
+            bound = inspect.signature(plain).bind(*args_p, **kwargs)
+            bound.apply_defaults()
+            expected = dict(bound.arguments)
+            expected.pop("self", None)
+            if option == 2:
+                expected = {k: v for k, v in expected.items() if k == names[0]}
+            elif option == 4:
+                expected = {}
+            logged = {k: v for k, v in st.items() if k not in RESERVED}
+            expected = {k: v for k, v in expected.items() if k not in RESERVED}
+            ctx.check(logged == expected, "start message holds %r, Python binds %r: %s", logged, expected, desc, sig=_sig(names, template, sname, kwargs))
+            if not raises:
+                if option == 3:
+                    ctx.check("result" not in en, "result logged despite include_result=False")
+                else:
+                    ctx.check(en.get("result") == exp[1], "logged result %r, returned %r", en.get("result"), exp[1])
     hostile = bool(set(names) & {"logger", "action_type", "_serializers", "self", "args", "kwargs", "message_type", "task_uuid", "result"})
     if hostile or exp[0] == "TypeError" or template[0] in ("posonly", "posonly-varkw", "varpos", "var-both", "all-kinds"):
         ctx.nontrivial((json.dumps(sh, sort_keys=True), tuple(ctx.trace)))
